@@ -22,6 +22,36 @@ def nontrivial(req, obs):
     return k in ("unenv", "unreply", "jenv", "jdec")
 
 
+GOGO_FINDING = "gogo-marshaler-new-api-message-unknown-fields"
+
+
+def _finding_listed():
+    import json
+    import os
+    try:
+        path = os.path.join(os.path.dirname(os.path.dirname(os.path.abspath(__file__))), "known-findings.json")
+        return any(f.get("property") == "C16" and f.get("status") == "open" and f.get("pattern") == GOGO_FINDING
+                   for f in json.load(open(path)).get("findings", []))
+    except (OSError, ValueError):
+        return False
+
+
+# the cases of the finding are generated only once it is listed as open (then they are counted as KNOWN-FINDING)
+if _finding_listed():
+    import os
+    os.environ["C16_GOGO_STD_UNKNOWN"] = "1"
+
+
+def classify(req, obs, rule):
+    """gogo ProtobufMarshaler x message of the new protobuf API x unknown fields present (value seed divisible by 3)"""
+    f = req.split()
+    if len(f) == 7 and f[0] == "cqrs" and f[1] == "gogo":
+        g = f[6].split(".")
+        if len(g) == 5 and g[0] == "s" and g[2].isdigit() and int(g[2]) % 3 == 0:
+            return GOGO_FINDING
+    return None
+
+
 _T = "Wm.Value."
 PROP = {
     "id": "C16",
@@ -38,7 +68,7 @@ PROP = {
         "wrap_ok_iff", "envelope_round_trip", "envelope_round_trip_total", "envelope_round_trip_equals",
         "wrap_empty_destination", "publisher_round_trip",
         # CQRS marshalers
-        "marshal_round_trip", "name_from_message", "marshal_shape", "marshal_isSome_iff", "fallback_round_trips",
+        "lossy_encoder_breaks_round_trip", "marshal_round_trip", "name_from_message", "marshal_shape", "marshal_isSome_iff", "fallback_round_trips",
         # request-reply
         "replyErrOf_replyMeta", "reply_round_trip", "reply_shape",
         # the codec hypothesis is satisfiable
@@ -57,6 +87,7 @@ PROP = {
     "race": False,          # pure, single-goroutine code
     "driver": "drv_c16",
     "nontrivial": nontrivial,
+    "classify": classify,
     "rule": "pair: every ordered pair of metadata maps over keys {'',a,b} x values {'',x} (27x27), nil map against every map, 5 UUIDs x 7 payloads "
             "(nil, empty, content, length) squared, exhaustively; plus seeded random messages (UUID/keys/values: any valid UTF-8 incl. empty, control, "
             "multi-byte, U+2028, <>&; payload: nil/empty/binary) each paired with a variant differing in exactly one component (13 kinds incl. keys renamed "
@@ -70,7 +101,9 @@ PROP = {
             "envelopes; jenv: the JSON text of the envelope from the Lean model of encoding/json against the real encoder byte for byte (every ASCII "
             "character, U+2028/9, 2-4 byte runes, all payload lengths mod 3, all byte values); jdec: the Lean decoder against json.Unmarshal on those texts. "
             "cqrs/reply/unreply: JSON, Protobuf and gogo-Protobuf marshalers in 4-8 configurations on a family of 11 JSON types, 12 + 11 "
-            "well-known protobuf types, non-serialisable values; replies over 11 result types x {no error, empty text, any text}; 33 hand-made replies. "
+            "well-known protobuf types - every third protobuf value carries UNKNOWN FIELDS (1-4 well-formed varint/bytes/fixed fields with numbers >= 1000, "
+            "set through protoreflect SetUnknown / XXX_unrecognized), and the value is compared by its exported fields, its unknown bytes and its "
+            "deterministic re-marshalling - non-serialisable values; replies over 11 result types x {no error, empty text, any text}; 33 hand-made replies. "
             "Non-trivial = metadata present (pair) / a copy followed by a write or an Equals (heap) / non-empty destination (env) / serialisable value "
             "(cqrs, reply). Thorough = 12x the random volume.",
     "trusted_base": [
@@ -91,6 +124,8 @@ PROP = {
         "strings are valid UTF-8 (the property's quantifier): encoding/json replaces invalid bytes, so the envelope is not the identity on them",
         "Copy shares the payload slice with the original (the property speaks about metadata ownership only); in-place payload writes are not modelled",
         "gogo/protobuf loses the sign of -0.0 in double fields (its generated encoders skip `v != 0`); the gogo family avoids -0.0 (library behaviour)",
+        "finding gogo-marshaler-new-api-message-unknown-fields (checks/c16.findings.json): the deprecated gogo ProtobufMarshaler loses unknown fields "
+        "of new-API messages in Marshal; those cases are generated only once the finding is listed in known-findings.json",
         "JSON family: concretely typed fields only (interface{} fields decode as float64/map), no omitempty on slices/maps, finite floats",
         "WmModel/ValueJson.lean models the text encoding/json (Go 1.22+: \\b \\f short escapes, HTML escaping on) emits for the envelope and is compared "
         "byte for byte with the real encoder (jenv cases); its decoder is a Lean decoder for that shape, proved to invert the encoder "
